@@ -37,6 +37,7 @@ const (
 	ctStruct
 	ctArray // arrays and slices of known length
 	ctMap
+	ctFunc // a function without captured variables (a constructor kept in a table)
 )
 
 type ctVal struct {
@@ -45,6 +46,18 @@ type ctVal struct {
 	elems []*ctVal // struct fields / array elements
 	keys  []*Const // map
 	vals  []*ctVal
+	fn    *Function // ctFunc
+}
+
+// asValue: the SSA value a scalar or function cell stands for, typed t; nil for aggregates and unknowns.
+func (v *ctVal) asValue(t types.Type) Value {
+	switch v.kind {
+	case ctScalar:
+		return NewConst(v.k.Value, t)
+	case ctFunc:
+		return v.fn
+	}
+	return nil
 }
 
 var ctUnknownVal = &ctVal{kind: ctUnknown}
@@ -134,6 +147,18 @@ func addrPathOf(a Value) ctPath {
 			}
 			a = x.X
 			continue
+		case *Slice:
+			// table[:] (or table[:n]): the same elements
+			if x.Low == nil {
+				a = x.X
+				continue
+			}
+			if c, ok := evalConst(x.Low, nil, 0); ok {
+				if lo, _ := constant.Int64Val(c); lo == 0 {
+					a = x.X
+					continue
+				}
+			}
 		case *UnOp:
 			// the slice held by a package-level variable: its elements
 			if g, ok := x.X.(*Global); ok && x.Op == token.MUL {
@@ -319,6 +344,15 @@ func classifyGlobalUse(g *Global, ins Instruction) (writes []*Store, escapes boo
 				if x.X != v {
 					escapes = true
 				}
+			case *Slice:
+				if x.X != v {
+					escapes = true
+				} else {
+					valueUses(x, depth+1)
+				}
+			case *Phi:
+				// a cursor over the table (lens = lens[1:]): still only read
+				valueUses(x, depth+1)
 			case *Range:
 			case *Call:
 				b, ok := x.Call.Value.(*Builtin)
@@ -361,6 +395,13 @@ func classifyGlobalUse(g *Global, ins Instruction) (writes []*Store, escapes boo
 		addrUses(x, 0)
 	case *IndexAddr:
 		addrUses(x, 0)
+	case *Slice:
+		// table[:] used for reading only
+		if x.X != Value(g) {
+			escapes = true
+			return
+		}
+		valueUses(x, 0)
 	case *DebugRef:
 	default:
 		escapes = true
@@ -381,6 +422,14 @@ func evalInitBlock(b *BasicBlock) map[Value]*ctVal {
 		}
 		if r, ok := vals[v]; ok {
 			return r
+		}
+		if fn, ok := v.(*Function); ok && len(fn.FreeVars) == 0 {
+			return &ctVal{kind: ctFunc, fn: fn}
+		}
+		if mc, ok := v.(*MakeClosure); ok && len(mc.Bindings) == 0 {
+			if fn, ok := mc.Fn.(*Function); ok {
+				return &ctVal{kind: ctFunc, fn: fn}
+			}
 		}
 		if c, ok := evalConst(v, nil, 0); ok {
 			return &ctVal{kind: ctScalar, k: NewConst(c, v.Type())}
@@ -525,6 +574,7 @@ func (ct *ConstTables) Rewrite(fns []*Function, expand bool) []string {
 			foldConstants(f)
 			rebuild(f)
 			simplifyPhis(f)
+			removeDeadTableLoads(f)
 			notes = append(notes, fmt.Sprintf("%s: %d read(s) of constant package-level tables replaced by their values", f.String(), n))
 		}
 	}
@@ -591,10 +641,7 @@ func (ct *ConstTables) fieldOfConstStruct(v Value, field int, t types.Type, made
 			return vTrue
 		}
 		c := sv.at([]int64{int64(field)})
-		if c.kind != ctScalar {
-			return nil
-		}
-		return NewConst(c.k.Value, t)
+		return c.asValue(t)
 	}
 	ph, ok := v.(*Phi)
 	if !ok {
@@ -648,7 +695,18 @@ func (ct *ConstTables) rewriteFn(f *Function) int {
 				if !ok || (bi.Name() != "len" && bi.Name() != "cap") || len(x.Call.Args) != 1 {
 					continue
 				}
-				ld, ok := x.Call.Args[0].(*UnOp)
+				arg := x.Call.Args[0]
+				if sl, ok := arg.(*Slice); ok && sl.Low == nil && sl.High == nil && sl.Max == nil {
+					if g, ok := sl.X.(*Global); ok {
+						if t := ct.tab[g]; t != nil && t.kind == ctArray {
+							replaceAll(x, NewConst(constant.MakeInt64(int64(len(t.elems))), x.Type()))
+							dead[x] = true
+							n++
+						}
+						continue
+					}
+				}
+				ld, ok := arg.(*UnOp)
 				if !ok || ld.Op != token.MUL {
 					continue
 				}
@@ -680,13 +738,13 @@ func (ct *ConstTables) rewriteFn(f *Function) int {
 					continue
 				}
 				c := ct.cellOf(x.X)
-				if c == nil || c.kind != ctScalar {
+				if c == nil || (c.kind != ctScalar && c.kind != ctFunc) {
 					continue
 				}
-				if _, isG := x.X.(*Global); isG && c.k.Value == nil {
+				if _, isG := x.X.(*Global); isG && c.kind == ctScalar && c.k.Value == nil {
 					continue // a nil-valued variable: leave
 				}
-				replaceAll(x, NewConst(c.k.Value, x.Type()))
+				replaceAll(x, c.asValue(x.Type()))
 				dead[x] = true
 				n++
 			case *Field:
@@ -811,6 +869,9 @@ func (ct *ConstTables) expandOneLookup(f *Function) bool {
 				continue
 			}
 			t := ct.tab[g]
+			if t != nil && t.kind == ctMap && len(t.keys) > 0 && len(t.keys) <= 32 && ct.expandCtorLookup(f, b, idx, lk, t) {
+				return true
+			}
 			if t == nil || t.kind != ctMap || len(t.keys) == 0 || len(t.keys) > 8 {
 				continue
 			}
@@ -849,8 +910,8 @@ func (ct *ConstTables) expandOneLookup(f *Function) bool {
 				continue
 			}
 			_, isStruct := mt.Elem().Underlying().(*types.Struct)
-			if eb, ok := mt.Elem().Underlying().(*types.Basic); !isStruct && (!ok || eb.Info()&(types.IsInteger|types.IsBoolean) == 0) {
-				continue // tables of names and the like are left as lookups
+			if eb, ok := mt.Elem().Underlying().(*types.Basic); !isStruct && (!ok || eb.Info()&(types.IsInteger|types.IsBoolean|types.IsString) == 0) {
+				continue
 			}
 			allScalar := true
 			for _, v := range t.vals {
@@ -1122,4 +1183,321 @@ func (ct *ConstTables) expandOneLookup(f *Function) bool {
 		}
 	}
 	return false
+}
+
+// trivialCtor: fn is `func() I { return new(T) }` (or a struct literal of constants): one block that allocates,
+// stores constants into the new object and returns it wrapped into an interface. The instructions to copy and
+// the returned value.
+func trivialCtor(fn *Function) ([]Instruction, Value) {
+	if fn == nil || len(fn.Blocks) != 1 || len(fn.Params) != 0 || len(fn.FreeVars) != 0 {
+		return nil, nil
+	}
+	var body []Instruction
+	var result Value
+	for _, ins := range fn.Blocks[0].Instrs {
+		switch x := ins.(type) {
+		case *Alloc:
+			if !x.Heap {
+				return nil, nil
+			}
+			body = append(body, ins)
+		case *FieldAddr, *MakeInterface, *ChangeInterface, *ChangeType:
+			body = append(body, ins)
+		case *Store:
+			if _, isConst := x.Val.(*Const); !isConst {
+				return nil, nil
+			}
+			body = append(body, ins)
+		case *Call:
+			// a named constructor that only allocates (NewPayloadEap)
+			g := x.Call.StaticCallee()
+			if g == nil || len(x.Call.Args) != 0 || !allocatesOnly(g) {
+				return nil, nil
+			}
+			body = append(body, ins)
+		case *Return:
+			if len(x.Results) != 1 {
+				return nil, nil
+			}
+			result = x.Results[0]
+		case *DebugRef:
+		default:
+			return nil, nil
+		}
+	}
+	if result == nil {
+		return nil, nil
+	}
+	return body, result
+}
+
+// allocatesOnly: g allocates objects, stores constants and fresh objects into them and returns: calling it
+// earlier or later is not observable.
+func allocatesOnly(g *Function) bool {
+	if g == nil || len(g.Blocks) != 1 || len(g.FreeVars) != 0 {
+		return false
+	}
+	for _, ins := range g.Blocks[0].Instrs {
+		switch x := ins.(type) {
+		case *Alloc, *FieldAddr, *MakeInterface, *Return, *DebugRef:
+		case *Store:
+			switch x.Val.(type) {
+			case *Const, *Alloc:
+			default:
+				return false
+			}
+		default:
+			return false
+		}
+	}
+	return true
+}
+
+// expandCtorLookup: `ctor, ok := table[k] ... v := ctor()` over a constant map of trivial constructors
+// becomes the switch it abbreviates: a chain of k == K tests whose arms allocate the entry's type, the value
+// of the call a φ of the arms (nil on the miss arm), ok a φ of constants. Allocating at the lookup instead of
+// at the call is not observable.
+func (ct *ConstTables) expandCtorLookup(f *Function, b *BasicBlock, idx int, lk *Lookup, t *ctVal) bool {
+	if bt, ok := lk.Index.Type().Underlying().(*types.Basic); !ok || bt.Info()&(types.IsInteger|types.IsString) == 0 {
+		return false
+	}
+	type ctor struct {
+		body   []Instruction
+		result Value
+	}
+	ctors := make([]ctor, len(t.vals))
+	for i, v := range t.vals {
+		if v.kind != ctFunc {
+			if debugUnroll {
+				fmt.Fprintf(os.Stderr, "consttab: ctor lookup in %s: entry %d is not a function (kind %d)\n", f, i, v.kind)
+			}
+			return false
+		}
+		body, res := trivialCtor(v.fn)
+		if res == nil {
+			if debugUnroll {
+				fmt.Fprintf(os.Stderr, "consttab: ctor lookup in %s: %s is not a trivial constructor\n", f, v.fn)
+			}
+			return false
+		}
+		ctors[i] = ctor{body, res}
+	}
+	// uses: the function value is only called (no arguments), ok is only read
+	var fv Value = lk
+	var okv Value
+	var extracts []Instruction
+	if lk.CommaOk {
+		fv = nil
+		for _, u := range *lk.Referrers() {
+			ex, isEx := u.(*Extract)
+			if !isEx {
+				if _, isDbg := u.(*DebugRef); isDbg {
+					continue
+				}
+				return false
+			}
+			extracts = append(extracts, ex)
+			if ex.Index == 0 {
+				fv = ex
+			} else {
+				okv = ex
+			}
+		}
+	}
+	if fv == nil || fv.Referrers() == nil {
+		return false
+	}
+	var calls []*Call
+	for _, u := range *fv.Referrers() {
+		call, isCall := u.(*Call)
+		if !isCall || call.Call.Value != fv || len(call.Call.Args) != 0 {
+			if _, isDbg := u.(*DebugRef); isDbg {
+				continue
+			}
+			return false
+		}
+		if call.Block() != b && !b.Dominates(call.Block()) {
+			return false
+		}
+		calls = append(calls, call)
+	}
+	if len(calls) != 1 {
+		return false
+	}
+	call := calls[0]
+	// split b at the lookup
+	j := &BasicBlock{Comment: "lookup.done", parent: f}
+	j.Instrs = append(j.Instrs, b.Instrs[idx+1:]...)
+	for _, in2 := range j.Instrs {
+		in2.(blockSetter).setBlock(j)
+	}
+	j.Succs = append(j.Succs, b.Succs...)
+	for _, s := range j.Succs {
+		s.replacePred(b, j)
+	}
+	b.Instrs = b.Instrs[:idx:idx]
+	b.Succs = nil
+	var newBlocks []*BasicBlock
+	cur := b
+	var armVals []Value
+	for i, k := range t.keys {
+		cmp := &BinOp{Op: token.EQL, X: lk.Index, Y: NewConst(k.Value, lk.Index.Type())}
+		cmp.setType(tBool)
+		cmp.setPos(lk.Pos())
+		cmp.setBlock(cur)
+		iff := &If{Cond: cmp}
+		iff.setBlock(cur)
+		cur.Instrs = append(cur.Instrs, cmp, iff)
+		hit := &BasicBlock{Comment: fmt.Sprintf("lookup.case%d", i), parent: f}
+		vmap := map[Value]Value{}
+		var cloned []Instruction
+		for _, ins := range ctors[i].body {
+			ni := cloneInstr(ins)
+			if ni == nil {
+				panic("ssa consttab: cannot clone " + ins.String())
+			}
+			ni.(blockSetter).setBlock(hit)
+			if v, ok := ins.(Value); ok {
+				vmap[v] = ni.(Value)
+			}
+			hit.Instrs = append(hit.Instrs, ni)
+			cloned = append(cloned, ni)
+		}
+		var rands []*Value
+		for _, ni := range cloned {
+			rands = ni.Operands(rands[:0])
+			for _, p := range rands {
+				if *p != nil {
+					if nv, ok := vmap[*p]; ok {
+						*p = nv
+					}
+				}
+			}
+		}
+		res := ctors[i].result
+		if nv, ok := vmap[res]; ok {
+			res = nv
+		}
+		armVals = append(armVals, res)
+		jm := &Jump{}
+		jm.setBlock(hit)
+		hit.Instrs = append(hit.Instrs, jm)
+		hit.Preds = []*BasicBlock{cur}
+		hit.Succs = []*BasicBlock{j}
+		next := &BasicBlock{Comment: fmt.Sprintf("lookup.next%d", i), parent: f}
+		next.Preds = []*BasicBlock{cur}
+		cur.Succs = []*BasicBlock{hit, next}
+		j.Preds = append(j.Preds, hit)
+		newBlocks = append(newBlocks, hit, next)
+		cur = next
+	}
+	jm := &Jump{}
+	jm.setBlock(cur)
+	cur.Instrs = append(cur.Instrs, jm)
+	cur.Succs = []*BasicBlock{j}
+	j.Preds = append(j.Preds, cur)
+	newBlocks = append(newBlocks, j)
+	var phis []Instruction
+	vp := &Phi{Comment: "lookup.new"}
+	vp.setType(call.Type())
+	vp.setPos(lk.Pos())
+	vp.setBlock(j)
+	vp.Edges = append(append(vp.Edges, armVals...), zeroConst(call.Type()))
+	phis = append(phis, vp)
+	replaceAll(call, vp)
+	dead := map[Instruction]bool{call: true}
+	for _, ex := range extracts {
+		dead[ex] = true
+	}
+	if okv != nil {
+		op := &Phi{Comment: "lookup.ok"}
+		op.setType(tBool)
+		op.setPos(lk.Pos())
+		op.setBlock(j)
+		for a := 0; a <= len(t.keys); a++ {
+			op.Edges = append(op.Edges, NewConst(constant.MakeBool(a < len(t.keys)), tBool))
+		}
+		phis = append(phis, op)
+		replaceAll(okv, op)
+	}
+	for _, bb := range append(append([]*BasicBlock{}, f.Blocks...), j) {
+		kp := bb.Instrs[:0:0]
+		for _, in2 := range bb.Instrs {
+			if !dead[in2] {
+				kp = append(kp, in2)
+			}
+		}
+		bb.Instrs = kp
+	}
+	j.Instrs = append(phis, j.Instrs...)
+	var blocks []*BasicBlock
+	for _, bb := range f.Blocks {
+		blocks = append(blocks, bb)
+		if bb == b {
+			blocks = append(blocks, newBlocks...)
+		}
+	}
+	f.Blocks = blocks
+	rebuild(f)
+	// the test of ok right behind the lookup: each arm knows its answer
+	for iter := 0; iter < 4; iter++ {
+		if !threadConstEdges(f, j) {
+			break
+		}
+		rebuild(f)
+	}
+	return true
+}
+
+// removeDeadTableLoads deletes loads of package-level variables (and address computations into them) whose
+// value nobody uses any more.
+func removeDeadTableLoads(f *Function) {
+	for round := 0; round < 3; round++ {
+		changed := false
+		for _, b := range f.Blocks {
+			kept := b.Instrs[:0]
+			for _, ins := range b.Instrs {
+				dead := false
+				switch x := ins.(type) {
+				case *UnOp:
+					if x.Op == token.MUL && len(*x.Referrers()) == 0 {
+						switch x.X.(type) {
+						case *Global, *FieldAddr, *IndexAddr:
+							if p := addrPathOf(x.X); p.root != nil {
+								if _, isG := p.root.(*Global); isG {
+									dead = true
+								}
+							}
+						}
+					}
+				case *FieldAddr:
+					if len(*x.Referrers()) == 0 {
+						if p := addrPathOf(x); p.root != nil {
+							if _, isG := p.root.(*Global); isG {
+								dead = true
+							}
+						}
+					}
+				case *IndexAddr:
+					if len(*x.Referrers()) == 0 {
+						if p := addrPathOf(x); p.root != nil {
+							if _, isG := p.root.(*Global); isG {
+								dead = true
+							}
+						}
+					}
+				}
+				if dead {
+					changed = true
+					continue
+				}
+				kept = append(kept, ins)
+			}
+			b.Instrs = kept
+		}
+		if !changed {
+			return
+		}
+		rebuild(f)
+	}
 }
